@@ -403,8 +403,8 @@ func c02GenIncludeFault(r *xrand.Rand, idx int, tier string) *fw.Case {
 	if target == root && len(chain) > 1 && r.Chance(3, 4) {
 		target = chain[1]
 	}
-	kind := []string{"bad-char", "dup-type", "undefined-type", "undefined-tag", "unknown-directive-param", "dup-server", "bad-schema", "chained-type-fault", "chained-type-fault"}[r.Intn(9)]
-	var faultLines []string
+	kind := []string{"bad-char", "dup-type", "undefined-type", "undefined-tag", "unknown-directive-param", "dup-server", "bad-schema", "chained-type-fault", "chained-type-fault", "unclosed-paren", "path-param-object-type", "path-param-object-type"}[r.Intn(12)]
+	var faultLines, innocent []string
 	faultLine := 0 // index within faultLines of the directive line the diagnostic must point into
 	switch kind {
 	case "bad-char":
@@ -429,6 +429,17 @@ func c02GenIncludeFault(r *xrand.Rand, idx int, tier string) *fw.Case {
 		uniq++
 		faultLines = []string{fmt.Sprintf("TYPE @bs%d", uniq), "{\"a\": }"}
 		faultLine = 1
+	case "unclosed-paren":
+		// the file ends while a parenthesis it opened is still open
+		uniq++
+		faultLines = []string{fmt.Sprintf("URL /up%d", uniq), "(", "  GET", "    200 any"}
+	case "path-param-object-type":
+		// a path parameter typed by an object type (found when the path variables are built, long after scanning);
+		// an innocent Path directive stands at the very end of the root file
+		uniq++
+		root.lines = append([]string{root.lines[0], fmt.Sprintf("TYPE @objT%d", uniq), "{\"a\": 1}"}, root.lines[1:]...)
+		faultLines = []string{fmt.Sprintf("GET /pp%d/{id}", uniq), "  Path", "  {", fmt.Sprintf("    \"id\": @objT%d", uniq), "  }", "  200 any"}
+		innocent = []string{fmt.Sprintf("GET /zz%d/{k}", uniq), "  Path", "  {", "    \"k\": 1", "  }", "  200 any"}
 	case "chained-type-fault":
 		// a chain of user types @ch_0 -> @ch_1 -> ... whose LAST link has a fault that only loading/checking finds; the
 		// earlier links stand at the top of the root file (declared first), the faulty one at the end of the target file
@@ -451,6 +462,13 @@ func c02GenIncludeFault(r *xrand.Rand, idx int, tier string) *fw.Case {
 		// keep it after everything else
 	}
 	target.lines = append(target.lines, faultLines...)
+	if len(innocent) > 0 {
+		if target == root {
+			root.lines = append(root.lines, innocent...)
+		} else {
+			root.lines = append(root.lines, innocent...)
+		}
+	}
 	nlMode := r.Intn(3)
 	sep := []string{"\n", "\r\n", "\r"}[nlMode]
 	out := map[string][]byte{}
@@ -465,10 +483,10 @@ func c02GenIncludeFault(r *xrand.Rand, idx int, tier string) *fw.Case {
 			}
 			lo = off
 			hi = off + len(f.lines[at+faultLine])
-			if kind == "dup-type" || kind == "dup-server" || kind == "bad-char" || kind == "unknown-directive-param" || kind == "chained-type-fault" {
+			if kind == "dup-type" || kind == "dup-server" || kind == "bad-char" || kind == "unknown-directive-param" || kind == "chained-type-fault" || kind == "unclosed-paren" || kind == "path-param-object-type" {
 				// whole directive (keyword line .. end of its last line)
 				hi = off
-				for i := at; i < len(f.lines); i++ {
+				for i := at; i < at+len(faultLines); i++ {
 					hi += len(f.lines[i]) + len(sep)
 				}
 			}
